@@ -162,12 +162,16 @@ def run(prog, tier, res):
         s = short(cname(t))
         if s in SORTS and base_is_chunks(an.terms.operand(t["args"][0])):
             key_ok = False
+            karg = strip(an.terms.operand(t["args"][1]))
+            if karg[0] == "fn" and karg[1] in prog.bodies and s.endswith(("_by_key", "by_cached_key")):
+                # `sort_by_key(Chunk::chunk_id)`: the key is an accessor of the chunk_id field
+                key_ok = accessor_field(prog, karg[1]) == chunk_id
             ci = closure_info(prog, an, an.terms.operand(t["args"][1]))
             if ci:
                 cb, cap = ci
                 rets = [subst_upvars(r, cap) for r in closure_ret(prog, cb)]
                 if s.endswith("_by_key") or s.endswith("by_cached_key"):
-                    key_ok = len(rets) == 1 and is_field_of(prog, rets[0], elem_pred(0), CHUNK, "chunk_id")
+                    key_ok = key_ok or (len(rets) == 1 and is_field_of(prog, rets[0], elem_pred(0), CHUNK, "chunk_id"))
                 else:
                     # sort_by(|a, b| a.chunk_id.cmp(&b.chunk_id))
                     if len(rets) == 1 and rets[0][0] == "call" and short(rets[0][1]) in ("Ord::cmp",) and len(rets[0][2]) == 2:
@@ -197,10 +201,15 @@ def run(prog, tier, res):
     ACC = "alpha_g_detector::padwing::Chunk::"
     FIRST = "Index::index(arg1,0)"
 
+    FIRSTS = (FIRST, "arg1[0]")        # Vec indexing (a call) or slice indexing (a place projection)
+
     def same_of_first(g):
         """atom `g(x) == g(chunks[0])` in either operand order of the canonical difference"""
-        return {"%s(%s) - %s(x) == 0" % (g, FIRST, g), "%s(x) - %s(%s) == 0" % (g, g, FIRST),
-                "cmp Eq %s(%s) %s(x)" % (g, FIRST, g), "cmp Eq %s(x) %s(%s)" % (g, g, FIRST)}
+        out_ = set()
+        for F_ in FIRSTS:
+            out_ |= {"%s(%s) - %s(x) == 0" % (g, F_, g), "%s(x) - %s(%s) == 0" % (g, g, F_),
+                     "cmp Eq %s(%s) %s(x)" % (g, F_, g), "cmp Eq %s(x) %s(%s)" % (g, g, F_)}
+        return out_
     PAY = ["len(%spayload(%%s))" % ACC, "len(%%s.%d)" % payload_f]
 
     def kind_of(f):
@@ -220,13 +229,13 @@ def run(prog, tier, res):
             a = next(iter(f.atoms))
             for pa in PAY:
                 for pb in PAY:
-                    if a in ("%s - %s == 0" % (pa % FIRST, pb % "x"), "%s - %s == 0" % (pb % "x", pa % FIRST)):
+                    if any(a in ("%s - %s == 0" % (pa % F_, pb % "x"), "%s - %s == 0" % (pb % "x", pa % F_)) for F_ in FIRSTS):
                         return "size"
         if whole and not f.enum and len(f.atoms) == 1:
             a = next(iter(f.atoms))
             for pa in PAY:
                 for pb in PAY:
-                    if a in ("%s - %s == 0" % (pa % FIRST, pb % "x"), "%s - %s == 0" % (pb % "x", pa % FIRST)):
+                    if any(a in ("%s - %s == 0" % (pa % F_, pb % "x"), "%s - %s == 0" % (pb % "x", pa % F_)) for F_ in FIRSTS):
                         return "size_all"
         return None
     found = {"board": None, "chip": None, "dense": None, "eom_none_before": None, "size": None, "size_all": None}
